@@ -37,6 +37,8 @@ package gomavlib
 //@                    logArg(logLen()-1, 1).(*EventFrame).Channel == ch &&
 //@                    logArg(logLen()-1, 1).(*EventFrame).Frame == logRetAny(0, 0).(frame.Frame)
 //@   loop 0 body-ensures [stream-request-hook-before-event] logLen() == 3 ==> logCallee(1, "(*gomavlib.nodeStreamRequest).onEventFrame")
+//@   loop 0 body-ensures [every-event-is-an-object-of-its-own] (logRetErr(0) == nil ==> freshPtr(logArg(logLen()-1, 1).(*EventFrame))) &&
+//@                    (logRetErr(0) != nil ==> freshPtr(logArg(1, 1).(*EventParseError)))
 //@   modifies ghost:log
 
 //@ func (*Channel).runWriter
@@ -256,6 +258,9 @@ package gomavlib
 //@              logArg(9, 1).(*EventStreamRequested).Channel == evt.Channel &&
 //@              logArg(9, 1).(*EventStreamRequested).SystemID == SYS && logArg(9, 1).(*EventStreamRequested).ComponentID == COMP
 //@   ensures  [remembered] REQ ==> mapHasKey(sr.lastRequests, KEY)
+//@   ensures  [request-time-remembered] REQ ==> sr.lastRequests[KEY] == lastNow(0) || sr.lastRequests[KEY] == lastNow(1)
+//@   ensures  [nothing-else-forgotten-or-refreshed] !REQ ==> (mapHasKey(sr.lastRequests, KEY) == old(mapHasKey(sr.lastRequests, KEY))) &&
+//@              (old(mapHasKey(sr.lastRequests, KEY)) ==> sr.lastRequests[KEY] == old(sr.lastRequests[KEY]))
 //@   canary   !REQ
 //@   canary   REQ
 //@   modifies *sr.lastRequests, ghost:log
